@@ -100,9 +100,8 @@ class _Jac(LinearOperator):
         # TODO: check if fcn has kwargs
 
         # run once to get the shapes and numels
-        yparam = params[idx]
         with torch.enable_grad():
-            yout = fcn(*params)  # (*nout)
+            yparam, yout = _eval_fcn(fcn, params, idx)  # (*nin), (*nout)
             v = torch.ones_like(yout).to(yout.device).requires_grad_()  # (*nout)
             dfdy = _vjp(yout, yparam, v, create_graph=True)  # (*nin)
 
@@ -118,7 +117,8 @@ class _Jac(LinearOperator):
             device=yparam.device)
 
         self.fcn = fcn
-        self.yparam = yparam
+        self.yparam = params[idx]
+        self.yparam_in = yparam  # the node standing for the argument in yout's graph
         self.params = list(params)
         # a copy: fcn.objparams() is the list the pure function itself keeps as its
         # current object parameters, and uselinopparams writes into this list;
@@ -157,8 +157,7 @@ class _Jac(LinearOperator):
         else:
             with torch.enable_grad(), self.fcn.useobjparams(self.objparams):
                 self.__update_params()
-                yparam = self.params[self.idx]
-                yout = self.fcn(*self.params)  # (*nout)
+                yparam, yout = _eval_fcn(self.fcn, self.params, self.idx)
                 v = torch.ones_like(yout).to(yout.device).requires_grad_()  # (*nout)
                 dfdy = _vjp(yout, yparam, v, create_graph=True)  # (*nin)
 
@@ -181,12 +180,11 @@ class _Jac(LinearOperator):
         # self.yfcn: (*nin)
         if self.__param_tensors_unchanged():
             yout = self.yout
-            yparam = self.yparam
+            yparam = self.yparam_in
         else:
             with torch.enable_grad(), self.fcn.useobjparams(self.objparams):
                 self.__update_params()
-                yparam = self.params[self.idx]
-                yout = self.fcn(*self.params)  # (*nout)
+                yparam, yout = _eval_fcn(self.fcn, self.params, self.idx)
 
         gout1 = gout.reshape(-1, self.nout)  # (nbatch, nout)
         nbatch = gout1.shape[0]
@@ -208,6 +206,16 @@ class _Jac(LinearOperator):
 
     def __update_params(self):
         self.params = self.param_sep.reconstruct_params(self.params_tensor)
+
+def _eval_fcn(fcn, params, idx):
+    # evaluate fcn with its idx-th argument replaced by a fresh view of it, so
+    # that the derivative is taken w.r.t. that argument only (not through other
+    # arguments that are the same tensor or that depend on it), as in
+    # torch.autograd.functional.jacobian
+    yparam = params[idx].view_as(params[idx])
+    params = list(params)
+    params[idx] = yparam
+    return yparam, fcn(*params)
 
 def _vjp(yout, yparam, v, create_graph):
     # v^T (d yout / d yparam) with the shape of yparam.
